@@ -22,7 +22,7 @@ ASSUMPTIONS = [
 ]
 EVAL = ['cases', 'seed_sequence_resets', 'seed_hash_cases']
 DISTINCT = ['sequence_base', 'mode_version', 'seeding_build', 'repro_cfg', 'seed_sequence_step', 'seed_hash_outcome', 'fault_plan', 'seeding_outcome', 'system_seeder_name']
-REQUIRED = ['refused_without_randomness', 'seed_sequence_resets', 'started_with_randomness', 'inject_only_handshakes', 'records_sequence_checked',
+REQUIRED = ['refused_without_randomness', 'seed_after_refusal_compared', 'seed_sequence_resets', 'started_with_randomness', 'inject_only_handshakes', 'records_sequence_checked',
             'explicit_ivs_seen', 'iv_sets_checked_unique', 'renegotiations', 'key_changes_seen', 'connections',
             'fields_checked_pairwise_distinct', 'reproduced_pairs', 'sequence_jumps', 'first_flights_compared', 'direct_outputs_compared',
             'conservation_checks']
